@@ -201,7 +201,7 @@ Definition the12 : list cls :=
     mkCls true false false true; mkCls false true false true; mkCls true true false true ].
 
 Lemma hooks_table :
-  map (fun k => hooks_code (effective_hooks k)) the12 = [0; 1; 0; 1; 2; 2; 2; 2; 0; 2; 0; 2].
+  map (fun k => hooks_code (effective_hooks k)) the12 = [0; 1; 0; 1; 2; 3; 2; 3; 0; 2; 0; 2].
 Proof. reflexivity. Qed.
 
 Section PickleP.
@@ -320,9 +320,21 @@ Section PickleP.
   Proof. intros A b t H Hb. subst. destruct t; [reflexivity | discriminate]. Qed.
 
   (* ------------------------------------------------------------- re-keying: contexts (LockedMachine hooks) *)
+  (* the table rebuilt by LockedMachine.__setstate__ from the transported list of pairs *)
+  Lemma locked_cmap : forall (rm rl : ident -> ident) (cmap : list (ident * list ident)) (ms : list ident),
+    NoDup ms -> (forall a b, In a ms -> In b ms -> rm a = rm b -> a = b) ->
+    build fst snd (ren_tab rm rl (map (fun i => (i, lookup_list cmap i)) ms))
+    = map (fun i => (rm i, map rl (lookup_list cmap i))) ms.
+  Proof.
+    intros rm rl cmap ms Hnd Hinj. unfold ren_tab. rewrite map_map. simpl.
+    rewrite build_nodup.
+    - rewrite map_map. simpl. reflexivity.
+    - rewrite map_map. simpl. apply NoDup_map_inj; assumption.
+  Qed.
+
   Lemma rekey_contexts : forall rm rl (w w' : world) (m m' : machine),
     wf m = true -> fresh rm rl w m = true ->
-    k_locked (m_cls m) = true -> k_graph (m_cls m) = false ->
+    k_locked (m_cls m) = true ->
     snapshot render rm rl w m = Some (w', m') ->
     m_models m' = map rm (m_models m) /\
     m_cmap m' = map (fun i => (rm i, map rl (lookup_list (m_cmap m) i))) (m_models m) /\
@@ -330,28 +342,16 @@ Section PickleP.
     (forall i, In i (m_models m) ->
        lookup_list (m_cmap m') (rm i) = map rl (lookup_list (m_cmap m) i)).
   Proof.
-    intros rm rl w w' m m' Hwf Hfr Hl Hg Hs.
+    intros rm rl w w' m m' Hwf Hfr Hl Hs.
     destruct (fresh_spec _ _ _ _ Hfr) as [Hinjm [_ [_ _]]].
-    destruct m as [[g n l a] c q ms mctx cmap graphs qkeys]. simpl in *. subst g l.
+    destruct m as [[g n l a] c q ms mctx cmap graphs qkeys]. simpl in *. subst l.
     unfold wf in Hwf. simpl in Hwf. repeat rewrite andb_true_iff in Hwf.
     destruct Hwf as [[[[Hnd _] _] _] _]. apply nodupb_NoDup in Hnd.
-    unfold snapshot, getstate in Hs. simpl in Hs.
-    destruct (forallb (hashable w) ms); [|discriminate]. simpl in Hs.
-    inversion Hs; subst; clear Hs. unfold setstate; simpl.
-    assert (Hnd' : NoDup (map rm ms)) by (apply NoDup_map_inj; assumption).
-    assert (Hstore : build (fun i => i) (fun i => lookup_list cmap i) ms
-                     = map (fun i => (i, lookup_list cmap i)) ms).
-    { apply build_nodup. rewrite map_id. assumption. }
-    rewrite Hstore. unfold ren_tab. rewrite map_map. simpl.
-    set (store' := map (fun x => (rm x, map rl (lookup_list cmap x))) ms).
-    assert (Hst : forall i, In i ms -> lookup_list store' (rm i) = map rl (lookup_list cmap i)).
-    { intros i Hi. unfold lookup_list at 1. unfold store'.
-      rewrite (lookup_map_fg rm (fun x => map rl (lookup_list cmap x))); auto. }
-    assert (Hcm : build (fun i => i) (fun i => lookup_list store' i) (map rm ms)
-                  = map (fun i => (rm i, map rl (lookup_list cmap i))) ms).
-    { rewrite build_nodup by (rewrite map_id; assumption). rewrite map_map.
-      apply map_ext_in. intros i Hi. rewrite Hst by assumption. reflexivity. }
-    rewrite Hcm. repeat split.
+    assert (Hcm : m_models m' = map rm ms /\
+                  m_cmap m' = map (fun i => (rm i, map rl (lookup_list cmap i))) ms).
+    { unfold snapshot, getstate in Hs. destruct g; simpl in Hs; inversion Hs; subst; clear Hs;
+        unfold setstate, locked_store; simpl; rewrite locked_cmap by assumption; split; reflexivity. }
+    destruct Hcm as [Hm Hcm]. rewrite Hm, Hcm. repeat split.
     - unfold keys. rewrite map_map. simpl. reflexivity.
     - intros i Hi. unfold lookup_list at 1.
       rewrite (lookup_map_fg rm (fun x => map rl (lookup_list cmap x))); auto.
@@ -372,15 +372,14 @@ Section PickleP.
     destruct m as [[g n l a] c q ms mctx cmap graphs qkeys]. simpl in *. subst g.
     unfold wf in Hwf. simpl in Hwf. repeat rewrite andb_true_iff in Hwf.
     destruct Hwf as [[[[Hnd _] _] _] _]. apply nodupb_NoDup in Hnd.
-    unfold snapshot, getstate in Hs. simpl in Hs.
-    inversion Hs; subst; clear Hs. unfold setstate; simpl.
     assert (Hnd' : NoDup (map rm ms)) by (apply NoDup_map_inj; assumption).
-    rewrite build_nodup by (rewrite map_id; assumption).
-    repeat split.
-    - rewrite keys_map_key. reflexivity.
-    - intros i Hi. rewrite lookup_map_key by (apply in_map; assumption).
-      f_equal. f_equal. unfold state_of. simpl. f_equal.
-      apply (model_copy rm w ms i); auto. apply Hfrm; assumption.
+    unfold snapshot, getstate in Hs.
+    destruct l; simpl in Hs; inversion Hs; subst; clear Hs; unfold setstate; simpl;
+      rewrite (build_nodup (fun i : ident => i)) by (rewrite map_id; assumption);
+      (repeat split; [rewrite keys_map_key; reflexivity |
+       intros i Hi; rewrite lookup_map_key by (apply in_map; assumption);
+       f_equal; f_equal; unfold state_of; simpl; f_equal;
+       apply (model_copy rm w ms i); auto; apply Hfrm; assumption]).
   Qed.
 
   Lemma in_concat_store : forall (cmap : list (ident * list ident)) ms x,
@@ -399,7 +398,7 @@ Section PickleP.
 
   (* ------------------------------------------------------------- the copy resolves to the same machine *)
   Theorem same_view : forall rm rl (w w' : world) (m m' : machine),
-    wf m = true -> fresh rm rl w m = true -> guard w m = true ->
+    wf m = true -> fresh rm rl w m = true -> guard m = true ->
     snapshot render rm rl w m = Some (w', m') ->
     resolve w' m' = normalize render (resolve w m).
   Proof.
@@ -408,18 +407,50 @@ Section PickleP.
     destruct m as [[g n l a] c q ms mctx cmap graphs qkeys].
     unfold wf in Hwf; simpl in Hwf. repeat rewrite andb_true_iff in Hwf.
     destruct Hwf as [[[[Hnd Hc] Hgr] Hq] Hla]. apply nodupb_NoDup in Hnd.
-    unfold guard in Hgd; simpl in Hgd. repeat rewrite andb_true_iff in Hgd. destruct Hgd as [[G1 G2] G3].
+    unfold guard in Hgd; simpl in Hgd.
     unfold all_locks in *; simpl in *.
-    assert (Hqk : qkeys = []). { apply negb_true_iff in G3. apply (wf_nil (a && q)); assumption. }
+    assert (Hqk : qkeys = []). { apply negb_true_iff in Hgd. apply (wf_nil (a && q)); assumption. }
     subst qkeys.
     assert (Hmod : forall i, In i ms -> lookup (models_after rm w ms) (rm i) = lookup (w_models w) i).
     { intros i Hi. unfold models_after. apply model_copy; auto. apply Hfrm; assumption. }
-    destruct g, l; simpl in *; try discriminate.
+    assert (Hnd' : NoDup (map rm ms)) by (apply NoDup_map_inj; assumption).
+    set (R := mctx ++ concat (map (fun i => lookup_list cmap i) ms)).
+    assert (HR : forall l, In l R -> In l (mctx ++ concat (map snd cmap))).
+    { intros l0 Hl. unfold R in Hl. apply in_app_or in Hl. apply in_or_app.
+      destruct Hl as [Hl|Hl]; [left; assumption | right; eapply in_concat_store; eauto]. }
+    assert (Hctx : forall i, In i ms ->
+              map (lookup (locks_after rl w R))
+                  (lookup_list (map (fun x => (rm x, map rl (lookup_list cmap x))) ms) (rm i))
+              = map (option_map transport_lock) (map (lookup (w_locks w)) (lookup_list cmap i))).
+    { intros i Hi. unfold lookup_list at 1.
+      rewrite (lookup_map_fg rm (fun x => map rl (lookup_list cmap x))) by assumption.
+      apply (locks_copy_list rl w R (mctx ++ concat (map snd cmap))); auto.
+      - intros l0 Hl. apply Hfrl; assumption.
+      - intros l0 Hl. unfold R. apply in_or_app. right. eapply in_store_concat; eauto. }
+    assert (Hmc : map (lookup (locks_after rl w R)) (map rl mctx)
+                  = map (option_map transport_lock) (map (lookup (w_locks w)) mctx)).
+    { apply (locks_copy_list rl w R (mctx ++ concat (map snd cmap))); auto.
+      - intros l0 Hl. apply Hfrl; assumption.
+      - intros l0 Hl. unfold R. apply in_or_app; auto. }
+    destruct g, l; simpl in *.
+    - (* locked graph class: both protocols *)
+      unfold snapshot, getstate in Hs. simpl in Hs. inversion Hs; subst; clear Hs.
+      unfold setstate, resolve, normalize, reach_locks, locked_store; simpl.
+      rewrite locked_cmap by assumption.
+      rewrite (build_nodup (fun i : ident => i)) by (rewrite map_id; assumption).
+      rewrite (map_map (fun i => (i, lookup_list cmap i)) snd). simpl.
+      fold R. fold (locks_after rl w R). fold (models_after rm w ms).
+      f_equal; [exact Hmc|].
+      rewrite !map_map. apply map_ext_in. intros i Hi.
+      unfold resolve_model, norm_model; simpl.
+      rewrite (Hmod i Hi), (Hctx i Hi).
+      rewrite (lookup_map_fg rm) by assumption.
+      unfold state_of; simpl. rewrite (Hmod i Hi). reflexivity.
     - (* graph class, GraphMachine hooks *)
       assert (cmap = []) by (apply (wf_nil false); auto). subst cmap. simpl in *.
       unfold snapshot, getstate in Hs. simpl in Hs. inversion Hs; subst; clear Hs.
       unfold setstate, resolve, normalize, reach_locks; simpl.
-      rewrite build_nodup by (rewrite map_id; apply NoDup_map_inj; assumption).
+      rewrite build_nodup by (rewrite map_id; assumption).
       f_equal.
       + apply (locks_copy_list rl w _ (mctx ++ [])); auto.
         * intros l Hl. apply Hfrl; assumption.
@@ -431,36 +462,15 @@ Section PickleP.
         unfold state_of; simpl. rewrite (Hmod i Hi). reflexivity.
     - (* locked class, LockedMachine hooks *)
       assert (graphs = []) by (apply (wf_nil false); auto). subst graphs.
-      unfold snapshot, getstate in Hs. simpl in Hs. rewrite G2 in Hs. simpl in Hs.
-      inversion Hs; subst; clear Hs.
-      assert (Hnd' : NoDup (map rm ms)) by (apply NoDup_map_inj; assumption).
-      assert (Hstore : build (fun i => i) (fun i => lookup_list cmap i) ms
-                       = map (fun i => (i, lookup_list cmap i)) ms).
-      { apply build_nodup. rewrite map_id. assumption. }
-      unfold setstate, resolve, normalize, reach_locks; simpl.
-      rewrite Hstore. unfold ren_tab. rewrite (map_map (fun i => (i, lookup_list cmap i))). simpl.
-      set (store' := map (fun x => (rm x, map rl (lookup_list cmap x))) ms).
-      set (R := mctx ++ concat (map (fun i => lookup_list cmap i) ms)).
-      assert (HR : forall l, In l R -> In l (mctx ++ concat (map snd cmap))).
-      { intros l Hl. unfold R in Hl. apply in_app_or in Hl. apply in_or_app.
-        destruct Hl as [Hl|Hl]; [left; assumption | right; eapply in_concat_store; eauto]. }
-      assert (Hst : forall i, In i ms -> lookup_list store' (rm i) = map rl (lookup_list cmap i)).
-      { intros i Hi. unfold lookup_list at 1. unfold store'.
-        rewrite (lookup_map_fg rm (fun x => map rl (lookup_list cmap x))); auto. }
-      rewrite build_nodup by (rewrite map_id; assumption).
-      f_equal.
-      + apply (locks_copy_list rl w R (mctx ++ concat (map snd cmap))); auto.
-        * intros l Hl. apply Hfrl; assumption.
-        * intros l Hl. unfold R. apply in_or_app; auto.
-      + rewrite !map_map. apply map_ext_in. intros i Hi.
-        unfold resolve_model, norm_model; simpl.
-        fold (models_after rm w ms). rewrite (Hmod i Hi). f_equal.
-        unfold lookup_list at 1.
-        rewrite (lookup_map_fg rm (fun x => lookup_list store' (rm x))) by assumption.
-        rewrite (Hst i Hi).
-        apply (locks_copy_list rl w R (mctx ++ concat (map snd cmap))); auto.
-        * intros l Hl. apply Hfrl; assumption.
-        * intros l Hl. unfold R. apply in_or_app. right. eapply in_store_concat; eauto.
+      unfold snapshot, getstate in Hs. simpl in Hs. inversion Hs; subst; clear Hs.
+      unfold setstate, resolve, normalize, reach_locks, locked_store; simpl.
+      rewrite locked_cmap by assumption.
+      rewrite (map_map (fun i => (i, lookup_list cmap i)) snd). simpl.
+      fold R. fold (locks_after rl w R). fold (models_after rm w ms).
+      f_equal; [exact Hmc|].
+      rewrite !map_map. apply map_ext_in. intros i Hi.
+      unfold resolve_model, norm_model; simpl.
+      rewrite (Hmod i Hi), (Hctx i Hi). reflexivity.
     - (* neither: default pickling of __dict__ *)
       assert (cmap = []) by (apply (wf_nil false); auto). subst cmap.
       assert (graphs = []) by (apply (wf_nil false); auto). subst graphs. simpl in *.
@@ -477,7 +487,7 @@ Section PickleP.
 
   Corollary same_run : forall (E O : Type) (step : pview C S G -> E -> pview C S G * O)
       rm rl (w w' : world) (m m' : machine) (h : list E),
-    wf m = true -> fresh rm rl w m = true -> guard w m = true ->
+    wf m = true -> fresh rm rl w m = true -> guard m = true ->
     snapshot render rm rl w m = Some (w', m') ->
     run_view step (resolve w' m') h = run_view step (normalize render (resolve w m)) h.
   Proof. intros. erewrite same_view; eauto. Qed.
@@ -509,7 +519,7 @@ Section PickleP.
 
   Corollary same_run_quiet : forall (E O : Type) (step : pview C S G -> E -> pview C S G * O)
       rm rl (w w' : world) (m m' : machine) (h : list E),
-    wf m = true -> fresh rm rl w m = true -> guard w m = true ->
+    wf m = true -> fresh rm rl w m = true -> guard m = true ->
     k_graph (m_cls m) = false -> quiet w m = true ->
     snapshot render rm rl w m = Some (w', m') ->
     run_view step (resolve w' m') h = run_view step (resolve w m) h.
@@ -539,7 +549,7 @@ Section PickleP.
   Qed.
 
   Theorem locks_free : forall rm rl (w w' : world) (m m' : machine),
-    wf m = true -> fresh rm rl w m = true -> guard w m = true ->
+    wf m = true -> fresh rm rl w m = true -> guard m = true ->
     snapshot render rm rl w m = Some (w', m') ->
     view_locks_free (resolve w' m').
   Proof. intros. erewrite same_view; eauto. apply normalize_locks_free. Qed.
@@ -567,25 +577,17 @@ Section PickleP.
               exists l0, In l0 (mctx ++ concat (map snd cmap)) /\ x = rl l0).
     { intros cm [Hcm|[]] x Hx. subst cm. rewrite concat_ren_tab, <- map_app in Hx.
       apply in_map_iff in Hx. destruct Hx as [l0 [H1 H2]]. eauto. }
-    destruct g; [|destruct l]; simpl in Hs.
-    - inversion Hs; subst; clear Hs. unfold setstate, all_locks; simpl. split; [reflexivity|].
-      apply Hgen; simpl; auto.
-    - destruct (forallb (hashable w) ms); [|discriminate]. simpl in Hs.
-      inversion Hs; subst; clear Hs. unfold setstate, all_locks; simpl. split; [reflexivity|].
-      intros x Hx. apply in_app_or in Hx. destruct Hx as [Hx|Hx].
-      + apply in_map_iff in Hx. destruct Hx as [l0 [H1 H2]]. exists l0. split; [apply in_or_app; auto | auto].
-      + rewrite (build_nodup (fun i => i) (fun i => lookup_list cmap i) ms) in Hx by (rewrite map_id; assumption).
-        unfold ren_tab in Hx. rewrite (map_map (fun i => (i, lookup_list cmap i))) in Hx. simpl in Hx.
-        rewrite build_nodup in Hx by (rewrite map_id; apply NoDup_map_inj; assumption).
-        rewrite !map_map in Hx. simpl in Hx.
-        apply in_concat in Hx. destruct Hx as [L [HL Hx]].
-        apply in_map_iff in HL. destruct HL as [i [Hv Hi]]. subst L.
-        apply in_lookup_list in Hx. rewrite map_map in Hx. simpl in Hx.
+    assert (Hlk : forall x,
+              In x (map rl mctx ++ concat (map snd (map (fun i => (rm i, map rl (lookup_list cmap i))) ms))) ->
+              exists l0, In l0 (mctx ++ concat (map snd cmap)) /\ x = rl l0).
+    { intros x Hx. apply in_app_or in Hx. destruct Hx as [Hx|Hx].
+      - apply in_map_iff in Hx. destruct Hx as [l0 [H1 H2]]. exists l0. split; [apply in_or_app; auto | auto].
+      - rewrite map_map in Hx. simpl in Hx.
         apply in_concat in Hx. destruct Hx as [L [HL Hx]]. apply in_map_iff in HL. destruct HL as [i1 [Hi1 _]]. subst L.
         apply in_map_iff in Hx. destruct Hx as [l0 [H1 H2]]. exists l0.
-        split; [apply in_or_app; right; eapply in_lookup_list; eauto | auto].
-    - inversion Hs; subst; clear Hs. unfold setstate, all_locks; simpl. split; [reflexivity|].
-      apply Hgen; simpl; auto.
+        split; [apply in_or_app; right; eapply in_lookup_list; eauto | auto]. }
+    destruct g, l; simpl in Hs; inversion Hs; subst; clear Hs; unfold setstate, all_locks, locked_store; simpl;
+      (split; [reflexivity|]); try (rewrite locked_cmap by assumption; exact Hlk); apply Hgen; simpl; auto.
   Qed.
 
   Definition disjoint_machines (a b : machine) : Prop :=
@@ -847,6 +849,12 @@ Section PickleP.
     { induction s as [|o r IH]; intros m Hm; simpl; [assumption | apply IH, wf_tab_step; assumption]. }
     apply G0, wf_init. assumption.
   Qed.
+  (* pickling never raises in the model: in particular not for unhashable models (fix 3c0ca68) *)
+  Lemma pickles_always : forall rm rl (w : world) (m : machine),
+    exists w' m', snapshot render rm rl w m = Some (w', m').
+  Proof.
+    intros rm rl w m. unfold snapshot, getstate. destruct (effective_hooks (m_cls m)); eexists; eexists; reflexivity.
+  Qed.
 End PickleP.
 
 Arguments quiet {_ _ _}.
@@ -866,7 +874,7 @@ Definition xlocked : machine nat (nat * option nat) :=
             (init_machine (mkCls false false true false) 7 false [0; 1]).
 
 Lemma ex_locked_envelope :
-  wf xlocked = true /\ fresh (xplus 100) (xplus 100) xworld xlocked = true /\ guard xworld xlocked = true /\
+  wf xlocked = true /\ fresh (xplus 100) (xplus 100) xworld xlocked = true /\ guard xlocked = true /\
   exists w' m', snapshot xrender (xplus 100) (xplus 100) xworld xlocked = Some (w', m') /\
     m_models m' = [110; 111] /\
     m_cmap m' = [(110, [100; 101]); (111, [100; 101; 103])] /\
@@ -874,36 +882,34 @@ Lemma ex_locked_envelope :
     lookup (w_locks w') 0 = Some (mkLobj 0 true true).
 Proof. repeat split; try reflexivity. eexists; eexists; repeat split; reflexivity. Qed.
 
-(* the same history on LockedGraphMachine: GraphMachine's hooks are in effect *)
+(* the same history on LockedGraphMachine: both protocols run (fix 74ef53e; formerly KF-C15-1) *)
 Definition xlockedgraph : machine nat (nat * option nat) :=
   fold_left (tab_step xrender xworld) [TAdd 10 []; TAdd 11 [3]]
             (init_machine (mkCls true false true false) 7 false [0; 1]).
 
-Lemma ex_locked_graph_stale :
-  exists (w : world nat) (m : machine nat (nat * option nat)) rm rl w' m',
-    wf m = true /\ fresh rm rl w m = true /\ snapshot xrender rm rl w m = Some (w', m') /\
-    m_models m' = [110; 111] /\ keys (m_cmap m') = [10; 11] /\
-    map pm_ctx (pv_models (resolve w' m')) = [[]; []] /\
-    map (fun x => length (pm_ctx x)) (pv_models (resolve w m)) = [2; 3] /\
-    resolve w' m' <> normalize xrender (resolve w m).
-Proof.
-  exists xworld, xlockedgraph, (xplus 100), (xplus 100).
-  eexists; eexists. repeat split; try reflexivity. intro H.
-  apply (f_equal (fun v => map (fun x => length (pm_ctx x)) (pv_models v))) in H.
-  vm_compute in H. discriminate.
-Qed.
+Lemma ex_locked_graph_rekeyed :
+  wf xlockedgraph = true /\ fresh (xplus 100) (xplus 100) xworld xlockedgraph = true /\
+  guard xlockedgraph = true /\
+  exists w' m', snapshot xrender (xplus 100) (xplus 100) xworld xlockedgraph = Some (w', m') /\
+    m_models m' = [110; 111] /\ keys (m_cmap m') = [110; 111] /\ keys (m_graphs m') = [110; 111] /\
+    map (fun x => length (pm_ctx x)) (pv_models (resolve w' m')) = [2; 3] /\
+    resolve w' m' = normalize xrender (resolve xworld xlockedgraph).
+Proof. repeat split; try reflexivity. eexists; eexists; repeat split; reflexivity. Qed.
 
-(* an unhashable model in a LockedMachine: __getstate__ raises *)
-Lemma ex_unhashable :
-  exists (w : world nat) (m : machine nat (nat * option nat)) rm rl,
-    wf m = true /\ fresh rm rl w m = true /\ k_locked (m_cls m) = true /\ k_graph (m_cls m) = false /\
-    snapshot xrender rm rl w m = None.
-Proof.
-  exists (mkW [(10, mkMobj 0 false)] [(0, mkLobj 0 false true); (1, mkLobj 1 false false)]).
-  exists (fold_left (tab_step xrender (mkW [(10, mkMobj 0 false)] [(0, mkLobj 0 false true); (1, mkLobj 1 false false)]))
-            [TAdd 10 []] (init_machine (mkCls false false true false) 7 false [0; 1])).
-  exists (xplus 100), (xplus 100). repeat split; reflexivity.
-Qed.
+(* an unhashable model in a LockedMachine pickles like any other (fix 3c0ca68; formerly KF-C15-2) *)
+Definition xuworld : world nat :=
+  mkW [(10, mkMobj 0 false)] [(0, mkLobj 0 false true); (1, mkLobj 1 false false)].
+Definition xunhashable : machine nat (nat * option nat) :=
+  fold_left (tab_step xrender xuworld) [TAdd 10 []] (init_machine (mkCls false false true false) 7 false [0; 1]).
+
+Lemma ex_unhashable_pickles :
+  wf xunhashable = true /\ fresh (xplus 100) (xplus 100) xuworld xunhashable = true /\
+  guard xunhashable = true /\
+  map (fun i => option_map mo_hashable (lookup (w_models xuworld) i)) (m_models xunhashable) = [Some false] /\
+  exists w' m', snapshot xrender (xplus 100) (xplus 100) xuworld xunhashable = Some (w', m') /\
+    m_models m' = [110] /\ m_cmap m' = [(110, [100; 101])] /\
+    resolve w' m' = normalize xrender (resolve xuworld xunhashable).
+Proof. repeat split; try reflexivity. eexists; eexists; repeat split; reflexivity. Qed.
 
 (* AsyncMachine(queued='model'): the queue table keeps the old integer keys *)
 Lemma ex_async_queue_stale :
